@@ -736,6 +736,29 @@ def reference_model(formula):
 
 
 # ---------------------------------------------------------------------------------------------
+NASTY_NAMES = ["nan", "inf", "Infinity", "NaN", "`2019`", "`1e3`", "`07`", "e1", "none", "TRUE", "_", "`my var`", "x.y", "`a:b`"]
+NASTY_SHAPES = ["y ~ A:B", "y ~ A*B", "y ~ A/B", "y ~ B:A + A", "y ~ (A + B)**2", "y ~ (A|B)", "y ~ (B|A)", "y ~ A + B - A", "y ~ A*B - A:B", "y ~ 0 + A:B:A"]
+
+
+def concrete_name_spellings(rep):
+    """the expansion does not depend on how a variable is spelt: names that look like numbers or keywords,
+    back-quoted names (plain API against the reference expansion; the symbolic part treats names as
+    opaque identities, this part checks that the implementation does so too)"""
+    n = 0
+    for a in NASTY_NAMES:
+        for b in ("g", "`2019`", "nan"):
+            if a == b:
+                continue
+            for sh in NASTY_SHAPES:
+                f = sh.replace("A", "\0").replace("B", b).replace("\0", a)
+                n += 1
+                bad, detail = replay({"formula": f})
+                if bad:
+                    rep.violations.append({"label": "expansion differs: depends on the spelling of a name", "signature": {"what": "expansion differs", "part": "names", "formula": f},
+                                           "replay": {"formula": f}, "reproduced": True, "detail": detail[:300]})
+    rep.extra["concrete_name_formulas"] = n
+
+
 def _work(job):
     core.setup_paths()
     core.silence_logging()
@@ -802,6 +825,7 @@ def run(tier, seed):
     ]
     if rep.cases == 0:
         rep.inconclusive.append("vacuous: nothing explored")
+    concrete_name_spellings(rep)
     return core.finish(rep)
 
 
